@@ -266,6 +266,18 @@ func main() {
 		for _, k := range ks {
 			fmt.Printf("\t%q: %q,\n", k, "reviewed "+sites[k])
 		}
+	case "lfcensus":
+		sites, _ := rules.LFSites(rc)
+		for _, k := range sites {
+			fmt.Printf("\t%q: %q,\n", k.Key, "reviewed "+k.Pos)
+		}
+	case "lf":
+		rules.LF(rc, 0)
+		for _, o := range s.Obs {
+			if o.Rule == "LF" {
+				fmt.Println(o.Verdict, o.Key, o.Pos, o.Detail)
+			}
+		}
 	case "lc":
 		rules.LC(rc, 0)
 		for _, o := range s.Obs {
